@@ -144,6 +144,23 @@ func (m *coreMon) check(op string, res string, cur *coreSnap) {
 				m.violate("C07/roles/proposer-equals-successor", fmt.Sprintf("r%d a%d", ri, r.Prop))
 			}
 		}
+		// --- w-coreb: C07 observation branch (a Hit, NOT a violation: the property does not forbid it) ---
+		// a real (non-sentinel) proposer whose bond is zero — reachable because PunishSequencer / the
+		// liveness slash never unbond and the choice prefers any bonded opted-in sequencer to the sentinel
+		// (Props/C07X zero_bond_proposer_possible / _by_liveness / _by_foreign_fraud)
+		if r.Prop >= 0 {
+			if q, ok := cur.Seqs[r.Prop]; ok && q.Tokens.IsZero() {
+				m.r.Hit("C07/roles/proposer-with-zero-bond")
+				if prev != nil && ri < len(prev.Ras) && prev.Ras[ri].Prop != r.Prop {
+					m.r.Hit("C07/roles/proposer-with-zero-bond/chosen-with-zero-bond-by-" + f[0])
+				} else if prev != nil {
+					if pq, ok := prev.Seqs[r.Prop]; ok && !pq.Tokens.IsZero() {
+						m.r.Hit("C07/roles/proposer-with-zero-bond/sitting-proposer-emptied-by-" + f[0])
+					}
+				}
+			}
+		}
+		// --- w-coreb: end ---
 		// ---- C08 events
 		n := 0
 		for _, e := range cur.Lev {
@@ -444,6 +461,9 @@ func (m *coreMon) check(op string, res string, cur *coreSnap) {
 			}
 		}
 	}
+	// --- w-coreb: C03 frame when the punished sequencer belongs to another rollapp (core_c03x_test.go) ---
+	m.checkForeignPunish(op, f, kv, res, prev, cur)
+	// --- w-coreb: end ---
 	// ---- C06 bond decrease classification
 	for i, cq := range cur.Seqs {
 		pq, ok := prev.Seqs[i]
@@ -556,6 +576,7 @@ type coreGen struct {
 	h     *coreH
 	focus string
 	r     *Run
+	stuck *coreStuck // --- w-coreb: stuck-finalization generator branch (core_stuck_test.go) ---
 }
 
 func (c *coreGen) pickActor() int { return c.g.Intn(c.h.p.NActors) }
@@ -572,6 +593,12 @@ func (c *coreGen) next(s *coreSnap, inBlock *bool, step int) string {
 		dt := []int64{1000000000, 6000000000, 500000000, 13000000000}[g.Intn(4)]
 		return fmt.Sprintf("begin dt=%d", dt)
 	}
+	// --- w-coreb: stuck finalization: observe the last outcome; fork around the stuck state ---
+	c.stuckObserve(s)
+	if l := c.stuckOp(s); l != "" {
+		return l
+	}
+	// --- end w-coreb ---
 	endP := 12
 	if c.focus == "C08" || c.focus == "C02" || c.focus == "C11" {
 		endP = 22
@@ -592,6 +619,7 @@ func (c *coreGen) next(s *coreSnap, inBlock *bool, step int) string {
 				fail = strings.Join(fs, ",")
 			}
 		}
+		fail = c.stuckEnd(s, fail) // --- w-coreb: stuck finalization: same (rollapp, index) for k blocks ---
 		return "end fail=" + fail
 	}
 	var existing []int
@@ -911,6 +939,21 @@ func (c *coreGen) genFraud(s *coreSnap, ri int, members []int) string {
 			c.r.Hit("fraud/blocked-rewardee")
 		}
 	}
+	// --- w-coreb: punish a sequencer of ANOTHER rollapp than the forked one (core_c03x_test.go) ---
+	punish, rewardee = c.genFraudForeignPunish(s, ri, punish, rewardee)
+	// --- w-coreb: end ---
+	// --- w-coreb: C07 focus only — sometimes name the proposer of ANOTHER rollapp as the sequencer to punish
+	// (SubmitRollappFraud does not check membership): it keeps proposing with a zero bond ---
+	if c.focus == "C07" && g.Chance(12) {
+		for rj, o := range s.Ras {
+			if rj != ri && o.Exists && o.Prop >= 0 {
+				punish = fmt.Sprintf("a%d", o.Prop)
+				c.r.Hit("fraud/punish-proposer-of-another-rollapp")
+				break
+			}
+		}
+	}
+	// --- w-coreb: end ---
 	return fmt.Sprintf("fraud r%d h=%d rev=%d punish=%s rewardee=%s auth=%s", ri, h, rev, punish, rewardee, auth)
 }
 
